@@ -1,5 +1,8 @@
 import VModel.Trainer
 import VModel.Spec
+import VProofs.Lemmas.TagAsmCollect
+import VProofs.Lemmas.TagAsmSizes
+import VProofs.Lemmas.TagAsmTokens
 /-!
 # C12 — Tag models reflect exactly the tags seen in training
 
@@ -12,7 +15,7 @@ theorem C12_candidates (examples : List (List Tag)) :
     (∀ c ∈ collectTags examples, c.Nodup) ∧
     (collectTags examples).length = examples.foldl (fun acc x => max acc x.length) 0 ∧
     ∀ (j : Nat) (t : List Char), t ∈ (collectTags examples).getD j [] ↔ ∃ ts ∈ examples, ts[j]? = some (some t) := by
-  sorry
+  exact C12L.collectTags_spec examples
 
 /-- the assembled tag model of a token: its candidate lists are the observed tags, and the bias and every weight vector
 have exactly one entry per trainable candidate (categories with at least two candidates) -/
@@ -21,7 +24,7 @@ theorem C12_sizes (token : List Char) (examples : List (List Tag)) (trace : List
     tm.token = token ∧ tm.tags = collectTags examples ∧ tm.bias.length = nClass tm.tags ∧
     (∀ d ∈ tm.charNgrams, ∀ w ∈ d.weights, w.weights.length = nClass tm.tags) ∧
     (∀ d ∈ tm.typeNgrams, ∀ w ∈ d.weights, w.weights.length = nClass tm.tags) := by
-  sorry
+  exact C12L.assembleTag_spec token examples trace tm h
 
 /-- which tokens get a tag model: every surface that occurs with tag slots in the corpus, plus every surface that only
 occurs in the tag dictionary with at least one tag; corpus examples win over the dictionary entry; each token once -/
@@ -32,7 +35,7 @@ theorem C12_tokens (corpus : List TagExample) (dict : List (List Char × List Ta
       (∃ e ∈ corpus, e.surface = tok) ∨ (∃ d ∈ dict, d.1 = tok ∧ d.2.any Option.isSome = true)) ∧
     (∀ tm ∈ tms, (∃ e ∈ corpus, e.surface = tm.token) →
       tm.tags = collectTags ((corpus.filter fun e => e.surface = tm.token).map (·.tags))) := by
-  sorry
+  exact C12L.assembleTags_spec corpus dict trace tms h
 
 /-- what prediction then does with such a tag model, for ANY class scores: a category seen with a single tag always gets
 that tag, a category seen with several gets one of them, a category never seen gets none -/
@@ -42,6 +45,12 @@ theorem C12_pick (cats : List (List (List Char))) (scores : List Int) (j : Nat) 
       (cands = [] → r = none) ∧
       (∀ t, cands = [t] → r = some t) ∧
       (2 ≤ cands.length → ∃ t ∈ cands, r = some t) := by
-  sorry
+  exact C12L.pick_spec cats scores j cands hj
+
+/-! non-vacuity: three tag rows, an absent tag (`none`), a repeated tag, and a second category seen only once -/
+example : collectTags [[some ['a'], none], [some ['b'], some ['x']], [some ['a']]] = [[['a'], ['b']], [['x']]] := by
+  decide
+
+example : specPickTags [[['a'], ['b']], [['x']], []] [1, 5] = [some ['b'], some ['x'], none] := by decide
 
 end V
